@@ -189,16 +189,27 @@ def Timer.name : Timer → String
   | .invoke c => s!"invoke:{c}" | .rtDeadline => "rtDeadline" | .agDeadline => "agDeadline" | .grace => "grace"
   | .resetTail n => s!"resetTail:{n}" | .restoreHook => "restoreHook"
 
+/-- platform events whose number per init is a property (C15): their own constructor, so that counting
+    them does not depend on the text of any line -/
+inductive EvKind where
+  | initStart | initRuntimeDone | initReport
+deriving DecidableEq, Repr
+
+def EvKind.str : EvKind → String
+  | .initStart => "initStart" | .initRuntimeDone => "initRuntimeDone" | .initReport => "initReport"
+
 /-- one thing the harness can see. The outcome of a caller of the invoke API is its own constructor, so
     that statements about outcomes do not depend on the text of the other lines. -/
 inductive Out where
   | line (s : String)
   | caller (c : Nat) (err body : String)
+  | ev (k : EvKind) (rest : String)
 deriving DecidableEq, Repr
 
 def Out.str : Out → String
   | .line s => s
   | .caller c err body => s!"caller{c} done err={err} body={body}"
+  | .ev k rest => s!"ev {k.str}:{rest}"
 
 structure State where
   -- configuration
@@ -261,6 +272,8 @@ structure State where
 deriving Repr, DecidableEq
 
 def State.emit (s : State) (e : String) : State := { s with out := s.out ++ [.line e] }
+/-- a counted platform event -/
+def State.emitEv (s : State) (k : EvKind) (rest : String) : State := { s with out := s.out ++ [.ev k rest] }
 /-- the outcome of caller `c`'s `Server.Invoke` call reaches the harness -/
 def State.emitCaller (s : State) (c : Nat) (err body : String) : State := { s with out := s.out ++ [.caller c err body] }
 /-- the output of the current op as the harness prints it -/
